@@ -283,7 +283,7 @@ func (cs *ContractSet) finish() error {
 		}
 		for _, cl := range c.Clauses {
 			switch cl.Kind {
-			case "requires", "ensures", "loop-invariant", "loop-decreases", "decreases", "assert", "assume", "canary", "invariant", "cover":
+			case "requires", "ensures", "atreturn", "loop-invariant", "loop-decreases", "decreases", "assert", "assume", "canary", "invariant", "cover":
 				e, err := parseExpr(cl.Text)
 				if err != nil {
 					return fmt.Errorf("%s:%d: %v in %q", cl.File, cl.Line, err, cl.Text)
@@ -317,8 +317,8 @@ func (cs *ContractSet) finish() error {
 					cl.Name = f[0]
 					cl.Text = f[1]
 				}
-			case "atcall":
-				// atcall NAME: expr
+			case "atcall", "chaninv":
+				// atcall NAME: expr / chaninv NAME: expr
 				i := strings.Index(cl.Text, ":")
 				if i < 0 {
 					return fmt.Errorf("%s:%d: atcall needs NAME: expr", cl.File, cl.Line)
